@@ -104,4 +104,30 @@ theorem crumb_is_node_url (root : Tree) (n : Tree) (a : List Tree) (hn : (n, a) 
         rw [← hu]; exact ofAnc [] x rest rfl
     · simp at hu
 
+/-! ### floats -/
+
+@[simp] theorem descendants_node (lv id info file kids) : descendants (.node lv id info file kids) = descendantsList kids := by
+  rw [descendants]
+@[simp] theorem descendantsList_nil : descendantsList [] = [] := by rw [descendantsList]
+@[simp] theorem descendantsList_cons (t ts) : descendantsList (t :: ts) = (t :: descendants t) ++ descendantsList ts := by
+  rw [descendantsList]
+@[simp] theorem countCaps_node (lv id info file kids) : countCaps (.node lv id info file kids) = countCapsList kids := by
+  rw [countCaps]
+@[simp] theorem countCapsList_nil : countCapsList [] = 0 := by rw [countCapsList]
+@[simp] theorem countCapsList_cons (t ts) :
+    countCapsList (t :: ts) = (if isCaption t then 1 else 0) + countCaps t + countCapsList ts := by rw [countCapsList]
+
+/- `allChildNodes` sees every caption below the node exactly once, however deeply it is nested -/
+mutual
+theorem caps_length : ∀ (t : Tree), ((descendants t).filter isCaption).length = countCaps t
+  | .node lv id info file kids => by simpa using capsList_length kids
+theorem capsList_length : ∀ (ts : List Tree), ((descendantsList ts).filter isCaption).length = countCapsList ts
+  | [] => by simp
+  | t :: ts => by
+    simp only [descendantsList_cons, List.cons_append, List.filter_cons, List.filter_append, countCapsList_cons]
+    have a := caps_length t
+    have b := capsList_length ts
+    split <;> simp [a, b] <;> omega
+end
+
 end PlasVerif.Proofs.UrlsCrumbs
